@@ -1,6 +1,7 @@
 package prop
 
 import (
+	sdkmath "cosmossdk.io/math"
 	"crypto/sha256"
 	"encoding/binary"
 	"encoding/hex"
@@ -1225,6 +1226,44 @@ func (w *htlcWorkload) tighten(st *htState) []rig.Tx {
 	return []rig.Tx{w.r.InjectRoute(w.r.Acc(acc), tag, &htlctypes.MsgUpdateParams{Authority: w.r.GovAddr.String(), Params: p})}
 }
 
+// roomForTL makes the listed asset with a supply record and the smallest recorded supplies active and time-limited,
+// with a one-minute period and room for many minimum-size transfers under both limits.
+func (w *htlcWorkload) roomForTL(st *htState) []rig.Tx {
+	p := htlctypes.Params{AssetParams: append([]htlctypes.AssetParam{}, st.params.AssetParams...)}
+	best := -1
+	var bestUsed sdkmath.Int
+	for i, a := range p.AssetParams {
+		sup, ok := st.sup[a.Denom]
+		if !ok {
+			continue
+		}
+		if _, hasDep := w.deputyIdx(a); !hasDep {
+			continue
+		}
+		used := sup.CurrentSupply.Amount.Add(sup.IncomingSupply.Amount)
+		if best < 0 || used.LT(bestUsed) {
+			best, bestUsed = i, used
+		}
+	}
+	acc, ok := w.pickAcc()
+	if best < 0 || !ok {
+		return nil
+	}
+	a := &p.AssetParams[best]
+	room := a.MinSwapAmount.MulRaw(1000).AddRaw(1_000_000)
+	a.Active = true
+	a.SupplyLimit.Limit = bestUsed.Add(room).Add(room)
+	a.SupplyLimit.TimeLimited = true
+	a.SupplyLimit.TimePeriod = time.Minute
+	a.SupplyLimit.TimeBasedLimit = st.sup[a.Denom].IncomingSupply.Amount.Add(room)
+	if a.MaxSwapAmount.LT(a.MinSwapAmount) {
+		a.MaxSwapAmount = a.MinSwapAmount
+	}
+	w.touched[a.Denom] = true
+	tag := &htTag{Kind: "params", Type: a.Denom, Note: "room-for-tl"}
+	return []rig.Tx{w.r.InjectRoute(w.r.Acc(acc), tag, &htlctypes.MsgUpdateParams{Authority: w.r.GovAddr.String(), Params: p})}
+}
+
 func (w *htlcWorkload) state(id string) (htlctypes.HTLC, bool) {
 	b, err := hex.DecodeString(id)
 	if err != nil {
@@ -1564,7 +1603,7 @@ func (w *htlcWorkload) scripted(st *htState) []rig.Tx {
 	}
 	s := w.script[0]
 	need := int64(60)
-	if s.Fate == "fast" || s.Fate == "limit-tighten" {
+	if s.Fate == "fast" || s.Fate == "limit-tighten" || s.Fate == "room-for-tl" {
 		need = 3
 	}
 	if w.Horizon > 0 && st.H+need > w.Horizon {
@@ -1574,6 +1613,8 @@ func (w *htlcWorkload) scripted(st *htState) []rig.Tx {
 	switch {
 	case s.Type == "params" && s.Fate == "limit-tighten":
 		txs = w.tighten(st)
+	case s.Type == "params" && s.Fate == "room-for-tl":
+		txs = w.roomForTL(st)
 	case s.Fate == "fast":
 		txs = w.createIncoming(st, "fast", 0, s.Arg)
 	case s.Fate == "bucket":
@@ -2086,6 +2127,11 @@ func (d *htDirector) requests(b int) {
 	if b%6 == 2 && (b < 50 || c["window-reset-after-completions"] == 0 || c["time-limited-incoming-claim-ok-after-a-reset"] == 0) {
 		d.w.Push(htScript{Type: "incoming", Fate: "fast", Arg: "tl"})
 	}
+	// no time-limited claim after a reset yet although half the history is over: the authority gives one listed asset a
+	// short limit period with plenty of room (random parameter changes may have removed or filled every such asset)
+	if b >= 50 && b%12 == 8 && c["time-limited-incoming-claim-ok-after-a-reset"] == 0 {
+		d.w.Push(htScript{Type: "params", Fate: "room-for-tl"})
+	}
 	if b%10 == 5 && (c["incoming-create-reaches-limit-exactly"] == 0 || c["incoming-at-limit-boundary-rejected"] == 0) {
 		d.w.Push(htScript{Type: "params", Fate: "limit-tighten"})
 	}
@@ -2559,6 +2605,13 @@ func (d *htDirector) onTxRejected(br *rig.BlockRecord, tx *rig.TxRecord, tag *ht
 			run.Eval(1)
 			run.Violation(d.mode+":htlc:claim:preimage-of-open-contract-rejected-as-invalid-secret", map[string]any{"height": br.Height, "id": c.ID, "type": c.typ(), "log": logBrief(tx)},
 				"claim of open %s contract %s with the preimage of its hash lock was rejected as 'invalid secret' at height %d", c.typ(), htShort(c.ID), br.Height)
+			return
+		}
+		if valid && strings.Contains(tx.Result.Log, "htlc not open") {
+			// the contract is open by every accepted event so far (and is not due before a later block begin)
+			run.Eval(1)
+			run.Violation(d.mode+":htlc:claim:open-contract-rejected-as-not-open", map[string]any{"height": br.Height, "id": c.ID, "type": c.typ(), "expiry": c.Expiry, "log": logBrief(tx)},
+				"claim of open %s contract %s (expires at %d) with the preimage of its hash lock was rejected as 'not open' at height %d", c.typ(), htShort(c.ID), c.Expiry, br.Height)
 			return
 		}
 		if valid {
